@@ -787,3 +787,16 @@ func init() {
 			}}
 	})
 }
+
+func init() {
+	hb := func(base string) func() *Scenario {
+		return func() *Scenario {
+			sc := scenarioByName(base)
+			sc.HBFastPath = true
+			return sc
+		}
+	}
+	for _, b := range []string{"elect3", "write3", "crash3", "transfer"} {
+		regScenario(b+"-hb", hb(b))
+	}
+}
